@@ -60,8 +60,19 @@ SIGS = [
 ENTRIES = ("find", "apply", "finditer", "find_one")
 
 
+ISOLATE = "run"  # every run in its own fork of the (never used) worker: pristine process state
+
+
 def worker_init() -> None:
     golden.start()
+
+
+def export_state() -> Dict[str, Any]:
+    return golden.export_new()
+
+
+def import_state(st: Dict[str, Any]) -> None:
+    golden.import_new(st)
 
 
 def plan(tier: str) -> Dict[str, Any]:
